@@ -1082,3 +1082,157 @@ Proof.
   - now apply roundtrip_lines.
   - now apply file_lines_no_break.
 Qed.
+
+(* ================================================================================================ *)
+(* 16. C01_idempotent and what sorted_view keeps                                                    *)
+(* ================================================================================================ *)
+Lemma redecorate (B : list (order * N)) : NoDup (keys B) ->
+  forall l, incl l B ->
+  map (fun o => (o, match assoc_get order_eqb o B with Some k => k | None => 0%N end)) (keys l) = l.
+Proof.
+  intros Hn. induction l as [|[o k] r IH]; intros Hi; [reflexivity|].
+  cbn [keys map fst]. rewrite (oassoc_get_in o k B Hn) by (apply Hi; now left).
+  f_equal. apply IH. intros x Hx. apply Hi. now right.
+Qed.
+
+Theorem ballots_sorted_view i : NoDup (o_orders i) -> ballots (sorted_view i) = ballots i.
+Proof.
+  intros Hd. unfold ballots at 1. unfold sorted_view at 2. cbn [o_orders].
+  unfold mult_of. unfold sorted_view. cbn [o_mult].
+  fold (keys (ballots i)).
+  rewrite (redecorate (ballots i) (ballots_keys_nodup i Hd) (ballots i)) by apply incl_refl.
+  apply stable_sort_id, ballots_sorted.
+Qed.
+
+Theorem write_sorted_view i : NoDup (o_orders i) -> ord_write (sorted_view i) = ord_write i.
+Proof.
+  intros Hd. unfold ord_write. rewrite ballots_sorted_view by exact Hd. reflexivity.
+Qed.
+
+Lemma oassoc_get_none (o : order) (mu : list (order * N)) : ~ In o (keys mu) -> assoc_get order_eqb o mu = None.
+Proof.
+  induction mu as [|[o' k'] r IH]; intros H; [reflexivity|]. cbn [assoc_get].
+  rewrite order_eqb_neq; [apply IH|]; intros E; apply H; [now right|subst; now left].
+Qed.
+
+Lemma oassoc_get_some (o : order) (mu : list (order * N)) :
+  In o (keys mu) -> exists k, assoc_get order_eqb o mu = Some k /\ In (o, k) mu.
+Proof.
+  induction mu as [|[o' k'] r IH]; intros H; [easy|]. cbn [assoc_get].
+  destruct (order_eqb o o') eqn:E.
+  - apply order_eqb_eq in E. subst. exists k'. split; [reflexivity|now left].
+  - destruct H as [H|H]; [cbn in H; subst; now rewrite order_eqb_refl in E|].
+    destruct (IH H) as [k [A B]]. exists k. split; [exact A|now right].
+Qed.
+
+(* sorted_view differs from i only by the stable sort of the order list: same header, same counts, the order
+   list is the stable sort (a permutation), the table is the same function order -> multiplicity *)
+Theorem sorted_view_spec i : wf_ord_P i ->
+  o_meta (sorted_view i) = o_meta i /\
+  o_num_unique (sorted_view i) = o_num_unique i /\
+  o_orders (sorted_view i) = map fst (stable_sort key_le (map (fun o => (o, mult_of i o)) (o_orders i))) /\
+  Permutation (o_orders (sorted_view i)) (o_orders i) /\
+  keys (o_mult (sorted_view i)) = o_orders (sorted_view i) /\
+  Permutation (o_mult (sorted_view i)) (o_mult i) /\
+  (forall o, assoc_get order_eqb o (o_mult (sorted_view i)) = assoc_get order_eqb o (o_mult i)).
+Proof.
+  intros W. destruct W as [Wf Wn Wr Ws Wc Wm Wk Wd].
+  assert (Dec : decorated i = o_mult i).
+  { unfold decorated. rewrite <- Wk. unfold mult_of. apply redecorate; [now rewrite Wk|apply incl_refl]. }
+  split; [reflexivity|]. split; [reflexivity|]. split; [reflexivity|].
+  split; [apply keys_ballots_perm|]. split; [reflexivity|].
+  split.
+  - cbn [sorted_view o_mult]. rewrite <- Dec. apply ballots_perm.
+  - intros o. cbn [sorted_view o_mult].
+    destruct (in_dec (fun a b => match Bool.bool_dec (order_eqb a b) true with
+                                  | left e => left (proj1 (order_eqb_eq a b) e)
+                                  | right n => right (fun e => n (proj2 (order_eqb_eq a b) e)) end)
+                     o (o_orders i)) as [Hin|Hout].
+    + assert (Hin' : In o (keys (o_mult i))) by now rewrite Wk.
+      destruct (oassoc_get_some o (o_mult i) Hin') as [k [A B]]. rewrite A.
+      apply oassoc_get_in; [now apply ballots_keys_nodup|].
+      apply (Permutation_in _ (Permutation_sym (ballots_perm i))). now rewrite Dec.
+    + rewrite !oassoc_get_none; [reflexivity| |].
+      * now rewrite Wk.
+      * intros H. apply Hout. now apply (Permutation_in _ (keys_ballots_perm i)).
+Qed.
+
+(* ================================================================================================ *)
+(* 17. C01_ties on a whole ballot line, with the blanks the writer puts                             *)
+(* ================================================================================================ *)
+Theorem ballot_line_roundtrip o k : Forall (fun c => c <> []) o ->
+  parse_ballot (remove_ws (ballot_line (o, k))) = Ok (k, o).
+Proof.
+  intros H. rewrite ballot_line_text, remove_ws_app. change (remove_ws nl) with (@nil N).
+  rewrite app_nil_r. now apply parse_ballot_text.
+Qed.
+
+(* ================================================================================================ *)
+(* 18. statements in the form used by Properties/C01.v                                              *)
+(* ================================================================================================ *)
+Lemma meta0_fresh dt : alt_names (meta0 dt) = [] /\ reserved (meta0 dt) = [].
+Proof. split; reflexivity. Qed.
+
+Theorem C01_roundtrip_proof i dt0 : wf_ord i = true ->
+  ord_parse false false (meta0 dt0) (readlines (ord_write i)) = Ok (sorted_view i).
+Proof. intros W. apply roundtrip_readlines; [now apply wf_ord_prop|reflexivity|reflexivity]. Qed.
+
+Theorem C01_roundtrip_str_proof i dt0 : wf_ord i = true ->
+  ord_parse false false (meta0 dt0) (splitlines (ord_write i)) = Ok (sorted_view i).
+Proof. intros W. apply roundtrip_splitlines; [now apply wf_ord_prop|reflexivity|reflexivity]. Qed.
+
+(* parse_file stores the basename of the path in file_name before parsing: any initial header is overwritten *)
+Theorem C01_roundtrip_any_initial_proof i m0 : wf_ord i = true -> alt_names m0 = [] -> reserved m0 = [] ->
+  ord_parse false false m0 (readlines (ord_write i)) = Ok (sorted_view i)
+  /\ ord_parse false false m0 (splitlines (ord_write i)) = Ok (sorted_view i).
+Proof.
+  intros W A R. split; [apply roundtrip_readlines|apply roundtrip_splitlines]; try assumption; now apply wf_ord_prop.
+Qed.
+
+Theorem C01_sorted_view_proof i : wf_ord i = true ->
+  o_meta (sorted_view i) = o_meta i /\
+  o_num_unique (sorted_view i) = o_num_unique i /\
+  o_orders (sorted_view i) = map fst (stable_sort key_le (map (fun o => (o, mult_of i o)) (o_orders i))) /\
+  Permutation (o_orders (sorted_view i)) (o_orders i) /\
+  keys (o_mult (sorted_view i)) = o_orders (sorted_view i) /\
+  Permutation (o_mult (sorted_view i)) (o_mult i) /\
+  (forall o, assoc_get order_eqb o (o_mult (sorted_view i)) = assoc_get order_eqb o (o_mult i)).
+Proof. intros W. now apply sorted_view_spec, wf_ord_prop. Qed.
+
+Lemma mults_in_file_order i : NoDup (o_orders i) ->
+  map (mult_of (sorted_view i)) (o_orders (sorted_view i)) = map snd (ballots i).
+Proof.
+  intros Hd. pose proof (redecorate (ballots i) (ballots_keys_nodup i Hd) (ballots i) (incl_refl _)) as R.
+  unfold sorted_view, mult_of. cbn [o_orders o_mult]. fold (keys (ballots i)).
+  transitivity (map snd (map (fun o => (o, match assoc_get order_eqb o (ballots i) with Some k => k | None => 0%N end))
+                             (keys (ballots i)))); [now rewrite map_map|now rewrite R].
+Qed.
+
+Theorem C01_sorted_proof i : wf_ord i = true ->
+  ord_write i = write_metadata (o_meta i) ++ count_lines i ++ write_alt_names (alt_names (o_meta i))
+                ++ flat_map ballot_line (ballots i)
+  /\ non_increasing (map snd (ballots i))
+  /\ non_increasing (map (mult_of (sorted_view i)) (o_orders (sorted_view i))).
+Proof.
+  intros W. apply wf_ord_prop in W. split; [reflexivity|]. split; [apply ballots_non_increasing|].
+  rewrite mults_in_file_order by apply W. apply ballots_non_increasing.
+Qed.
+
+Theorem C01_idempotent_proof i : wf_ord i = true -> ord_write (sorted_view i) = ord_write i.
+Proof. intros W. apply write_sorted_view. now apply wf_ord_prop in W as []. Qed.
+
+Theorem C01_idempotent_parsed_proof i dt0 j : wf_ord i = true ->
+  ord_parse false false (meta0 dt0) (readlines (ord_write i)) = Ok j -> ord_write j = ord_write i.
+Proof.
+  intros W H. rewrite C01_roundtrip_proof in H by exact W. injection H as <-. now apply C01_idempotent_proof.
+Qed.
+
+Definition classes_nonempty (o : order) : Prop := Forall (fun c => c <> []) o.
+
+Theorem C01_ties_proof o k : classes_nonempty o ->
+  tokenize (remove_ws (order_str o)) = tokenize (cstr o) /\
+  order_of_str (remove_ws (order_str o)) = Ok o /\
+  parse_ballot (remove_ws (ballot_line (o, k))) = Ok (k, o).
+Proof.
+  intros H. split; [now rewrite remove_ws_order_str|]. split; [now apply order_roundtrip|now apply ballot_line_roundtrip].
+Qed.
